@@ -97,7 +97,7 @@ claim("C17", PROOF + "; floats as reals for lttb",
       "labeledSeries.add buffers out-of-order results by sequence number and releases them in sequence order, each exactly once (buffer' = buffer + {seq} - released run; released as far as possible), at x = (timestamp - timestamp of seq 0)/1e6 ms; timeSeries.add pushes a point exactly once or rejects it leaving the series unchanged.",
       "Assumption: machine floating point treated as mathematical reals in Downsample (IEEE rounding of float64(i+1)*size could move a bucket boundary by one; the code's len(points)==0 fallback tolerates that, the proof does not model it). Trusted: Iter type contract (assumed for timeSeries.iter), tsz stubs, Labeler type contract. Stated: count <= 2^61, attack shorter than 292 years, each sequence number added once, timestamps follow sequence order (C05). "
       "Plot.data (floats as reals): given well-formed series (len == points pushed) it asks Downsample for every series with that series' own iterator and length, emits exactly one row per downsampled point, each row with one column per series plus x, labels[0] == \"Seconds\", and returns the rows sorted by x (sort.Sort's effect is the stated assumption 'orders by Less', with dataPoints.Less proved to compare the x column and Swap to exchange two rows; sort.Slice is assumed to permute the series). "
-      "Not covered: Plot.Add/WriteTo/plotRun (the representation invariant of the plot - distinct series own distinct tsz buffers - is a precondition of Plot.data, not proved to be maintained), timeSeries.iter (trusted contract: iterates the pushed points from the first), NaN padding of the other columns, HTML/JSON text emitted, tsz compression.",
+      "Not covered: Plot.Add/WriteTo/plotRun (the representation invariant of the plot - distinct series own distinct tsz buffers - is a precondition of Plot.data, not proved to be maintained), the identification of timeSeries.iter's closure with the abstract lttb iterator (trusted mapping; the closure itself is proved against assumed go-tsz iterator contracts to deliver the next min(count, left) pushed points in order with x = seconds(t ms) and y = v), NaN padding of the other columns, HTML/JSON text emitted, tsz compression.",
       "DESIGN.md 8/C17")
 
 claim("C07", PROOF,
